@@ -7,6 +7,7 @@ import (
 	"fmt"
 	"math"
 	"reflect"
+	"strings"
 	"time"
 	"unsafe"
 
@@ -19,6 +20,19 @@ var timeType = reflect.TypeOf(time.Time{})
 func field(v reflect.Value, i int) reflect.Value {
 	f := v.Field(i)
 	return reflect.NewAt(f.Type(), unsafe.Pointer(f.UnsafeAddr())).Elem()
+}
+
+// byName finds the Go struct field that carries the schema member called name (the
+// generator exports or lower-cases the first letter, nothing else); position i is the
+// fallback. Message fields are matched by name because the order in which a generator lays
+// out the struct is not part of any property.
+func byName(t reflect.Type, name string, i int) int {
+	for k := 0; k < t.NumField(); k++ {
+		if strings.EqualFold(t.Field(k).Name, name) {
+			return k
+		}
+	}
+	return i
 }
 
 // Field exposes field i of an addressable struct value, also when it is unexported.
@@ -124,7 +138,7 @@ func toGo(s *schema.Schema, t schema.Type, v val.Value, dst reflect.Value) error
 			if pos < 0 {
 				return fmt.Errorf("message %s has no field %d", d.Name, mf.Index)
 			}
-			fd := field(dst, pos)
+			fd := field(dst, byName(dst.Type(), d.Fields[pos].Name, pos))
 			if fd.Kind() != reflect.Ptr {
 				return fmt.Errorf("message %s field %d is not a pointer in %s", d.Name, mf.Index, dst.Type())
 			}
@@ -322,7 +336,7 @@ func fromGo(s *schema.Schema, t schema.Type, src reflect.Value, notes *Notes) (v
 		}
 		out := val.Value{}
 		for i, f := range d.Fields {
-			p := field(src, i)
+			p := field(src, byName(src.Type(), f.Name, i))
 			if p.Kind() != reflect.Ptr {
 				return out, fmt.Errorf("message %s field %s is not a pointer", d.Name, f.Name)
 			}
